@@ -574,7 +574,9 @@ def cmdHSet (c : Ctx) (db : Db) (k : Bytes) (fvs : List (Bytes × Bytes)) (nx : 
     R.ok (db.put k (.hash h) none) (if replyOk then vOK else vInt added)
   | .ok (some (e, old)) =>
     let (h, added) := hsetAll nx fvs old 0
-    let db' := if h == old then db else upd c db k e (.hash h)
+    -- every field that is stored (not skipped by NX) marks the database dirty, changed or not
+    let stored := if nx then added > 0 else !fvs.isEmpty
+    let db' := if h == old then (if stored then db.setDirty else db) else upd c db k e (.hash h)
     R.ok db' (if replyOk then vOK else vInt added)
 
 def cmdHGet (c : Ctx) (db : Db) (k f : Bytes) : R :=
